@@ -262,9 +262,16 @@ def serInls (pre : Bytes) (eol : Bytes) (c : Choices) : List Inl → Bytes × Ch
     (a ++ [0x20] ++ b, c2)
 end
 
-def spacesN (n : Nat) : Bytes := List.replicate n 0x20
+/-- A *structural* space: a column of white space that defines block structure (container prefixes, list-item
+    content indentation, the four columns of an indented code block). The serialiser writes it as this
+    placeholder; `resolveStructural` turns every run of them into spaces or — where a run reaches a tab stop —
+    tabs (CommonMark 0.30 §2.2: "in contexts where spaces help to define block structure, tabs behave as if they
+    were replaced by spaces with a tab stop of 4 characters"). Content never contains this byte. -/
+def SS : UInt8 := 0x01
 
-def trimEndSp (b : Bytes) : Bytes := (b.reverse.dropWhile (· == 0x20)).reverse
+def spacesN (n : Nat) : Bytes := List.replicate n SS
+
+def trimEndSp (b : Bytes) : Bytes := (b.reverse.dropWhile (fun c => c == 0x20 || c == SS)).reverse
 
 /-- A line of a container: prefix (trailing spaces dropped on blank lines) + text + line ending. -/
 def line (pre text eol : Bytes) : Bytes := (if text.isEmpty then trimEndSp pre else pre ++ text) ++ eol
@@ -302,9 +309,9 @@ def serBlk (first pre eol : Bytes) (c : Choices) : Blk → Bytes × Choices
   | .indented lines =>
     match lines with
     | [] => ([], c)
-    | l0 :: rest => (first ++ s "    " ++ l0 ++ eol ++ rest.flatMap (fun l => line pre (if l.isEmpty then [] else s "    " ++ l) eol), c)
+    | l0 :: rest => (first ++ spacesN 4 ++ l0 ++ eol ++ rest.flatMap (fun l => line pre (if l.isEmpty then [] else spacesN 4 ++ l) eol), c)
   | .quote ks =>
-    let q := s "> "
+    let q := [0x3E, SS]
     match ks with
     | [] => (first ++ trimEndSp q ++ eol, c)
     | _ => serBlks (first ++ q) (pre ++ q) (pre ++ q) eol c ks
@@ -355,7 +362,40 @@ def serTight (first pre eol : Bytes) (c : Choices) : List Blk → Bytes × Choic
     (x ++ y, c2)
 end
 
-/-- The canonical serialisation of a document. -/
-def ser (eol : Bytes) (c : Choices) (d : Doc) : Bytes := (serBlks [] [] [] eol c d).1
+/-- One run of `r` structural columns starting at column `col`: a tab wherever the run reaches the next tab stop
+    and the choice stream says so, a space otherwise. -/
+def resolveRun : Nat → Nat → Nat → Choices → Bytes × Nat × Choices
+  | 0, _, col, tc => ([], col, tc)
+  | fuel + 1, r, col, tc =>
+    if r == 0 then ([], col, tc) else
+    let toStop := 4 - col % 4
+    let (k, tc') := pick tc 2
+    if toStop ≤ r && k == 1 then
+      let (rest, col', tc'') := resolveRun fuel (r - toStop) (col + toStop) tc'
+      (0x09 :: rest, col', tc'')
+    else
+      let (rest, col', tc'') := resolveRun fuel (r - 1) (col + 1) tc'
+      (0x20 :: rest, col', tc'')
+
+/-- Replace the structural-space placeholders of a serialised document. Columns are counted from the start of
+    each line (every byte before the last structural space of a line is ASCII). -/
+def resolveStructural : Nat → Bytes → Nat → Choices → Bytes
+  | 0, _, _, _ => []
+  | _ + 1, [], _, _ => []
+  | fuel + 1, c :: rest, col, tc =>
+    if c == SS then
+      let run := 1 + (rest.takeWhile (· == SS)).length
+      let (out, col', tc') := resolveRun (run + 1) run col tc
+      out ++ resolveStructural fuel (rest.drop (run - 1)) col' tc'
+    else if c == 0x0A || c == 0x0D then c :: resolveStructural fuel rest 0 tc
+    else c :: resolveStructural fuel rest (col + 1) tc
+
+/-- The canonical serialisation of a document. The first choice selects how structural white space is spelled:
+    0 = spaces only, 1 = a tab wherever one fits, 2 = a per-position choice. -/
+def ser (eol : Bytes) (c : Choices) (d : Doc) : Bytes :=
+  let (mode, c) := pick c 3
+  let raw := (serBlks [] [] [] eol c d).1
+  let tc : Choices := if mode == 0 then [] else if mode == 1 then List.replicate raw.length 1 else c.reverse ++ c
+  resolveStructural (raw.length + 1) raw 0 tc
 
 end CM.Spec
